@@ -344,8 +344,19 @@ fn valid_encodings(tier: Tier) -> Vec<(Type, Value)> {
         out.push((Type::Bool, v));
     }
     let maxlen = if tier.is_thorough() { 40 } else { 33 };
-    for len in 0..=maxlen {
-        let b: Vec<u8> = (0..len).map(|i| (i * 37 + 11) as u8).collect();
+    let mut samples: Vec<Vec<u8>> = (0..=maxlen).map(|len| (0..len).map(|i| (i * 37 + 11) as u8).collect()).collect();
+    // values whose text in one encoding looks like another encoding: base64 "0x012345", "0X01", "abcd" (all hex
+    // digits), "0x" alone; hex text that is also valid base64; leading and trailing zero bytes
+    samples.extend([
+        vec![0xd3, 0x1d, 0x35, 0xdb, 0x7e, 0x39],
+        vec![0xd1, 0x7d, 0x35],
+        vec![0x69, 0xb7, 0x1d],
+        vec![0xd3, 0x1d],
+        vec![0x00],
+        vec![0x00, 0x00, 0x01, 0x00],
+        vec![0xff; 3],
+    ]);
+    for b in samples {
         for upper in [false, true] {
             out.push((Type::Bytes, json!(hex_enc(&b, upper))));
             out.push((Type::Bytes, json!(format!("0x{}", hex_enc(&b, upper)))));
